@@ -30,6 +30,13 @@ Theorem C20_closed_zero : forall c evs evs',
 Proof. exact closed_zero. Qed.
 Print Assumptions C20_closed_zero.
 
+(* the same when the device closes itself because the TUN read failed for good *)
+Theorem C20_fatal_read_zero : forall c evs evs',
+  let s := reached c (evs ++ EFatalRead :: evs') in
+  outstanding s = vzero /\ a_get (s_acc s) = a_put (s_acc s).
+Proof. exact fatal_read_zero. Qed.
+Print Assumptions C20_fatal_read_zero.
+
 (* no pool ever gets back more than it handed out (counting form of "no buffer is owned by two packets") *)
 Theorem C20_no_double_owner : forall c evs,
   let a := s_acc (reached c evs) in
